@@ -184,6 +184,62 @@ def judge_sequence(kind, ident, seed, ops, wrap_state=False, reuse=False):
     return None
 
 
+def judge_wrapper_without_state(kind, ident, seed):
+    """a state wrapper around an environment that has no state representation cannot return states: it must fail loudly,
+    not hand back observations"""
+    top, ge, path = build(kind, ident)
+    if ge.outer_env.state_representation is not None:
+        ge.outer_env.state_representation = None
+        ge.state_space = None
+    ge.outer_env.inner_env.set_seed(seed)
+    try:
+        w = GG.GymStateWrapper(ge)
+        out = w.reset()
+    except Exception:  # noqa: BLE001 -- any loud failure is acceptable
+        return None
+    orep = make_observation_representation('default', ge.outer_env.inner_env.observation_space)
+    if isinstance(out, dict) and arrays_equal(out, orep.convert(ge.outer_env.inner_env.observation)):
+        return f'{kind} {ident}: GymStateWrapper without a state representation silently returns the OBSERVATION representation from reset()'
+    return f'{kind} {ident}: GymStateWrapper without a state representation returned {type(out).__name__} from reset() instead of failing'
+
+
+def judge_two_of_one_id(kind, ident, seed):
+    """two live environments made from the same id are independent: each follows its own twin"""
+    if kind == 'direct':
+        return None
+    e1, g1, path = build(kind, ident)
+    e2, g2, _ = build(kind, ident)
+    if g1.outer_env is g2.outer_env or g1.outer_env.inner_env is g2.outer_env.inner_env:
+        return f'{kind} {ident}: two environments made from the same id share one underlying environment'
+    t1, t2 = configs.build(path), configs.build(path)
+    for g, t, sd in ((g1, t1, seed), (g2, t2, seed + 5)):
+        g.outer_env.inner_env.set_seed(sd)
+        t.set_seed(sd)
+    actions = list(t1.action_space.actions)
+    orep = {}
+    plan = [(1, 'reset'), (2, 'reset'), (1, 0), (2, 'compact'), (2, 1), (1, 2), (2, 0), (1, 'reset'), (2, 3), (1, 1)]
+    names = {1: 'default', 2: 'default'}
+    for who, op in plan:
+        e, g, t = (e1, g1, t1) if who == 1 else (e2, g2, t2)
+        if op == 'reset':
+            out = e.reset()
+            t.reset()
+        elif isinstance(op, str):
+            g.set_observation_representation(op)
+            names[who] = op
+            continue
+        else:
+            out = e.step(op)[0]
+            t.step(actions[op])
+        out = {k: np.array(v, copy=True) for k, v in out.items()}
+        want = make_observation_representation(names[who], t.observation_space).convert(t.observation)
+        if not arrays_equal(out, want):
+            return f'{kind} {ident}: environment #{who} of two made from the same id no longer follows its own seed/representation (operation {op})'
+        if not g.observation_space.contains(out):
+            return f'{kind} {ident}: environment #{who} returns observations outside the space it advertises (operation {op})'
+    return None
+
+
 def sequences(n_actions, depth, variants):
     """base action-index sequences of length `depth` and their variants (reset / representation switch at each position)"""
     for base in itertools.product(range(n_actions), repeat=depth):
@@ -222,6 +278,10 @@ def _work(job):
 
 
 def replay(case):
+    if case['kind'] == 'wrapper_no_state':
+        return judge_wrapper_without_state(case['wrap'], case['ident'], case['seed'])
+    if case['kind'] == 'two_of_one_id':
+        return judge_two_of_one_id(case['wrap'], case['ident'], case['seed'])
     try:
         return judge_sequence(case['wrap'], case['ident'], case['seed'], [tuple(o) for o in case['ops']], wrap_state=case['wrap_state'])
     except Exception as e:  # noqa: BLE001
@@ -258,6 +318,19 @@ def run(rep, tier, seed):
         n += k
         ops += o
         fails.extend(fl)
+    extra_n = 0
+    for kind, idents in (('direct', names[:6]), ('make', ids), ('entry_point', ids)):
+        for ident in idents:
+            for fn, label in ((judge_wrapper_without_state, 'wrapper_no_state'), (judge_two_of_one_id, 'two_of_one_id')):
+                extra_n += 1
+                try:
+                    m = fn(kind, ident, base + 9)
+                except Exception as e:  # noqa: BLE001
+                    m = f'{kind} {ident}: {label} raised {type(e).__name__}: {e}'
+                if m:
+                    fails.append({'kind': label, 'wrap': kind, 'ident': ident, 'seed': base + 9, 'message': m,
+                                  'sig': {'part': label, 'wrap': kind}, 'simplicity': 0})
+    rep.part('wrapper_and_multi_env', cases=extra_n)
     fails.sort(key=lambda f: f['simplicity'])
     dyn.report_fails(rep, fails, replay)
     rep.bounds = {'direct_configs': len(names), 'registered_ids': len(ids), 'depth_deep_configs': D, 'deep_configs': deep,
